@@ -167,6 +167,37 @@ def run(ctx):
                     expected=f"assignment of self.{a} inside {sorted(closure) or 'a subscribed refresh method'}",
                     found=f"assigned only in {where}", node=first.node,
                 )
+        # -- a sub-object constructed with its own subscription switched OFF (`subscribe=False`, whatever the callee is: the
+        #    interpolator classes are looked up dynamically) must be refreshed by its owner: a subscribed method of the owner
+        #    calls `self.<attr>._precompute()` on every normal path
+        for st_ in ast.walk(init.node):
+            if not (isinstance(st_, ast.Assign) and isinstance(st_.value, ast.Call)):
+                continue
+            off = [k_ for k_ in st_.value.keywords if k_.arg == "subscribe" and A.const_value(k_.value) is not True]
+            tgt = next((A.dotted(t_) for t_ in st_.targets if (A.dotted(t_) or "").startswith("self.")), None)
+            if not off or tgt is None:
+                continue
+            attr_ = tgt.split(".", 1)[1]
+            ok_refresh = False
+            for mn_ in sorted(closure):
+                m_ = c.methods.get(mn_)
+                if m_ is None:
+                    continue
+                calls_ = [cc for cc in A.calls_in(m_.node, into_defs=False) if A.dotted(cc.func) == f"self.{attr_}._precompute"]
+                if not calls_:
+                    continue
+                # the repo's idiom `if not self.param_viewer.index_selection: return` at the top of a refresh method leaves when the
+                # owner has no modifiers at all -- then it has no sub-object either: not a path on which a refresh is owed
+                body_ = [b_ for b_ in m_.node.body if not (isinstance(b_, ast.If) and not b_.orelse and len(b_.body) == 1 and isinstance(b_.body[0], ast.Return) and b_.body[0].value is None and "index_selection" in A.unparse(b_.test))]
+                g_ = CFG.build(body_)
+                stmt_ = _stmt_containing(m_.node, calls_[0])
+                ok_, _w = g_.all_paths_pass(lambda n, stmt_=stmt_: n.stmt is stmt_)
+                if ok_:
+                    ok_refresh = True
+            if ok_refresh:
+                ctx.holds(r1, f"{c.relpath}::{c.name}.{attr_} [constructed with subscribe=False]", "refreshed by the owner's subscribed method on every path")
+            else:
+                ctx.violated(r1, init, st_, f"`self.{attr_}` is constructed with its own subscription to 'tensorlib_changed' switched off (`subscribe=False`) and no subscribed method of {c.name} refreshes it on EVERY path (`self.{attr_}._precompute()` missing, or only in one arm of a branch): after a backend switch it keeps the tensors of the previous backend / precision", expected=f"self.{attr_}._precompute() on every path of {sorted(closure) or 'a subscribed method'}", found="not refreshed on every path", node=st_)
         # -- R2 / R3 inside refresh methods
         for mn in sorted(refresh_methods):
             m = c.methods.get(mn)
@@ -753,7 +784,9 @@ def _r7_switch_histories(ctx, rid=None):
     errs = (Undecided, KeyError, TypeError, ValueError, IndexError, AttributeError)
 
     def mk(name, precision):
-        return Obj("backend", {"name": name, "precision": precision, "__class__": f"{name}_backend"}, closed=True)
+        # `dtypemap` stands for everything the constructor derives from the precision it is GIVEN (dtype tables, defaults): it is
+        # fixed at construction, whatever is later written into the object's `precision` attribute
+        return Obj("backend", {"name": name, "precision": precision, "dtypemap": f"dtypes chosen for {precision}", "__class__": f"{name}_backend"}, closed=True)
 
     modes = {}
     for rel_, _cn in BACKEND_CLASSES.values():  # what importing the backend modules has already switched (jax: x64 on)
@@ -898,6 +931,8 @@ def _r7_switch_histories(ctx, rid=None):
         own_modes = dict(modes)
         if got != want:
             ctx.violated(r7, sb, label, f"the current backend after the call is {got}", expected=str(want), found=str(got))
+        elif cur.attrs.get("dtypemap") != f"dtypes chosen for {want[1]}":
+            ctx.violated(r7, sb, label, f"the current backend reports precision {want[1]} but was CONSTRUCTED for another one ({cur.attrs.get('dtypemap')}): the precision attribute of an existing backend object was overwritten instead of building a backend of the requested width, so every tensor it creates has the old width", expected=f"a backend built with precision {want[1]}", found=str(cur.attrs.get("dtypemap")))
         elif own_modes != final_modes:
             diff = sorted(k_ for k_ in own_modes if own_modes.get(k_) != final_modes.get(k_))
             ctx.violated(r7, sb, label, f"afterwards the process-wide setup `{diff[0]}` is {final_modes.get(diff[0])}, the backend in force sets it to {own_modes.get(diff[0])}: the library-global setup was made for ANOTHER backend object (one re-created by the precision keyword, or one that was only constructed) or not at all -- the current backend computes at another width than it is configured for", expected=str({k_: own_modes[k_] for k_ in diff}), found=str({k_: final_modes.get(k_) for k_ in diff}))
